@@ -315,8 +315,8 @@ func VerifC18Deadline() {
 // rate(p) <= rate(p+1).
 func VerifC18Kernel() { c18Kernel(1, 4) }
 
-// VerifC18KernelT: thorough tier, every p < 128 (16 shards of 8).
-func VerifC18KernelT() { c18Kernel(16, 8) }
+// VerifC18KernelT: thorough tier, every p < 96 (16 shards of 6).
+func VerifC18KernelT() { c18Kernel(16, 6) }
 
 func c18Kernel(blocks, perBlock int) {
 	c18FeeFnConfig()
